@@ -51,6 +51,7 @@ type Rec struct {
 	Src  string
 	Dst  string
 	Data []byte
+	Full []byte // for read: the whole datagram, when the caller's buffer was too small for it (Data is what it got)
 	Ref  uint64 // for arrive/read: Seq of the send
 	Sock string // label of the socket concerned
 	Copy int
@@ -379,7 +380,11 @@ func (c *UDPConn) read(b []byte) (int, *net.UDPAddr, error) {
 			f.mu.Unlock()
 			n := copy(b, d.data)
 			c.LastRef = d.ref
-			f.rec(Rec{Kind: "read", Src: d.src.String(), Dst: c.local.String(), Data: d.data[:n], Ref: d.ref, Sock: c.Label})
+			r := Rec{Kind: "read", Src: d.src.String(), Dst: c.local.String(), Data: d.data[:n], Ref: d.ref, Sock: c.Label}
+			if n < len(d.data) {
+				r.Full = d.data
+			}
+			f.rec(r)
 			return n, d.src, nil
 		}
 		if t == nil { // teardown
